@@ -134,12 +134,12 @@ func (s *Store) LinkSystem() ipld.LinkSystem {
 type Form int
 
 const (
-	Direct Form = iota // field: link
-	Inline             // field: {c: link}
-	Nested             // field: {n: {c: link}}
-	List               // field: [link]
-	ListInline         // field: [{c: link}]   (path f/0/c: shares the segment "0" with a List sibling)
-	Inline2            // field: {c: {c: link}} (path f/c/c: shares the segment "c" with an Inline sibling)
+	Direct     Form = iota // field: link
+	Inline                 // field: {c: link}
+	Nested                 // field: {n: {c: link}}
+	List                   // field: [link]
+	ListInline             // field: [{c: link}]   (path f/0/c: shares the segment "0" with a List sibling)
+	Inline2                // field: {c: {c: link}} (path f/c/c: shares the segment "c" with an Inline sibling)
 )
 
 var formNames = []string{"direct", "inline", "nested", "list", "listinline", "inline2"}
